@@ -30,6 +30,7 @@ type valForm struct {
 var c07ValForms = []valForm{
 	{"", 0, 0}, {"v", 0, 1}, {" v", 1, 2}, {"v  ", 0, 1}, {" v w", 1, 4}, {" v\r\n w", 1, 6}, {"\r\n\tv", 3, 4}, {" v\r w", 1, 5}, {" v\n w", 1, 5},
 	{" v \r\n ", 1, 2}, {"\tlong-value;with=stuff,and:colons \t", 1, 34}, {" ", 0, 0}, {" \r\n ", 0, 0},
+	{" v\n\tw", 0, 0}, {" v\r\tw", 0, 0}, {"\n\tv", 0, 0}, {" v\r\n\t\r\n w", 0, 0}, {"v\t\n \t", 0, 0},
 }
 
 func init() {
